@@ -99,6 +99,9 @@ def process_all_requirements(pyscript_folder, requirements_paths, requirements_f
                     new_version = UNPINNED_VERSION
                 else:
                     new_version = parts[1]
+                    # a pin that is not a valid version is skipped (InvalidVersion is a ValueError)
+                    # wherever it appears, so the result does not depend on the order of lines and files
+                    Version(new_version)
                 pkg_name = parts[0]
 
                 current_pinned_version = all_requirements_to_install.get(pkg_name, {}).get(ATTR_VERSION)
